@@ -8,6 +8,7 @@ from __future__ import annotations
 
 import json
 import os
+import re
 import select
 import signal
 import time
@@ -45,7 +46,31 @@ def _solve_one(ob, timeout_ms, seed):
     absq = None
     abs_tried = False
     last = {"verdict": "unknown", "reason": "portfolio exhausted"}
-    for use_abs, opts, share in PORTFOLIO:
+    portfolio = PORTFOLIO
+    ground = not _has_quantifier(ob.hyps + [ob.goal])
+    if ground:
+        # cone of influence: hypotheses that (transitively) share a constant with the goal; fewer hypotheses can only
+        # make proving harder, never unsound - a `sat` answer of the reduced query is ignored
+        for depth, share in ((0, 0.3), (1, 0.1), (99, 0.15)):
+            rel = _relevant(ob.hyps, ob.goal, depth)
+            if len(rel) < len(ob.hyps):
+                s = z3.Solver()
+                s.set("timeout", max(1000, int(timeout_ms * share)))
+                for h in rel:
+                    s.add(h)
+                s.add(z3.Not(ob.goal))
+                if s.check() == z3.unsat:
+                    return {"verdict": "proved", "time": time.time() - t_start, "backend": f"z3 (cone of influence, depth {depth})"}
+    if ground:
+        # ground query (typically regular-language membership): the native string solver first, with most of the budget
+        portfolio = [(False, {}, 0.45), (True, {"smt.mbqi": False}, 0.05), ("cvc5", {}, 0.5)]
+    for use_abs, opts, share in portfolio:
+        if use_abs == "cvc5":
+            r5 = _cvc5(ob, max(1.0, timeout_ms * share / 1000.0))
+            if r5 is not None:
+                r5["time"] = time.time() - t_start
+                return r5
+            continue
         if use_abs:
             if not abs_tried:
                 absq = abstract_query(ob.hyps, ob.goal)
@@ -83,6 +108,128 @@ def _solve_one(ob, timeout_ms, seed):
             last = {"verdict": "unknown", "reason": s.reason_unknown(), "backend": cfg}
     last["time"] = time.time() - t_start
     return last
+
+
+def _cvc5(ob, timeout_s):
+    """Ground string queries z3 left open: the cvc5 CLI in a child process under a hard kill (it ignores --tlimit)."""
+    import subprocess
+    import tempfile
+
+    if not os.path.exists("/usr/bin/cvc5"):
+        return None
+    s = z3.Solver()
+    for h in ob.hyps:
+        s.add(h)
+    s.add(z3.Not(ob.goal))
+    from .values import VBytes, VInt, VStr
+
+    names = {k: v.z for k, v in ob.model_vars.items() if isinstance(v, (VBytes, VStr, VInt)) and z3.is_const(v.z) and v.z.decl().kind() == z3.Z3_OP_UNINTERPRETED}
+    txt = "(set-logic ALL)\n" + s.to_smt2()
+    txt = txt.replace("(check-sat)", "(check-sat)\n" + "".join(f"(get-value ({z3.Z3_ast_to_string(v.ctx_ref(), v.as_ast())}))\n" for v in names.values()))
+    with tempfile.NamedTemporaryFile("w", suffix=".smt2", delete=False) as f:
+        f.write(txt)
+        path = f.name
+    try:
+        p = subprocess.run(["timeout", "-s", "KILL", str(int(timeout_s) + 1), "/usr/bin/cvc5", "--strings-exp", "--produce-models", path], capture_output=True, text=True)
+        out = p.stdout.strip().splitlines()
+    except Exception:  # noqa: BLE001
+        return None
+    finally:
+        try:
+            os.unlink(path)
+        except OSError:
+            pass
+    if not out:
+        return None
+    if out[0] == "unsat":
+        return {"verdict": "proved", "backend": "cvc5 1.0.3 --strings-exp"}
+    if out[0] == "sat":
+        mv = {}
+        for (k, v), line in zip(names.items(), out[1:]):
+            m = re.match(r'^\(\((\S+) (.*)\)\)$', line.strip())
+            if not m:
+                continue
+            val = m.group(2)
+            if val.startswith('"'):
+                mv[k] = {"bytes": _smt_string_to_bytes(val[1:-1]).hex()}
+            else:
+                try:
+                    mv[k] = int(val.replace("(- ", "-").replace(")", ""))
+                except ValueError:
+                    mv[k] = val
+        return {"verdict": "refuted", "backend": "cvc5 1.0.3 --strings-exp", "model": mv}
+    return None
+
+
+def _smt_string_to_bytes(s):
+    out = bytearray()
+    i = 0
+    while i < len(s):
+        if s.startswith("\\u{", i):
+            j = s.index("}", i)
+            out.append(int(s[i + 3 : j], 16) & 0xFF)
+            i = j + 1
+        elif s.startswith('""', i):
+            out.append(34)
+            i += 2
+        else:
+            out.append(ord(s[i]) & 0xFF)
+            i += 1
+    return bytes(out)
+
+
+def _consts(e, memo):
+    k = e.get_id()
+    if k in memo:
+        return memo[k]
+    out = set()
+    stack = [e]
+    seen = set()
+    while stack:
+        x = stack.pop()
+        if x.get_id() in seen:
+            continue
+        seen.add(x.get_id())
+        if z3.is_app(x) and x.num_args() == 0 and x.decl().kind() == z3.Z3_OP_UNINTERPRETED:
+            out.add(x.decl().name())
+        stack.extend(x.children())
+    memo[k] = out
+    return out
+
+
+def _relevant(hyps, goal, depth=99):
+    """Hypotheses within `depth` sharing steps of the goal's constants (depth 0: those that share a constant with the goal)."""
+    memo = {}
+    sym = set(_consts(goal, memo))
+    if not sym and hyps:
+        sym = set(_consts(hyps[-1], memo))  # goal `False` (an infeasible raising path): seed with the raise condition
+    hs = [(h, _consts(h, memo)) for h in hyps]
+    chosen = [False] * len(hs)
+    for rnd in range(depth + 1):
+        new = set()
+        for k, (h, cs) in enumerate(hs):
+            if not chosen[k] and (cs & sym or not cs):
+                chosen[k] = True
+                new |= cs
+        if new <= sym:
+            break
+        sym |= new
+    return [h for (h, _), c in zip(hs, chosen) if c]
+
+
+def _has_quantifier(exprs):
+    seen = set()
+    stack = list(exprs)
+    while stack:
+        e = stack.pop()
+        k = e.get_id()
+        if k in seen:
+            continue
+        seen.add(k)
+        if z3.is_quantifier(e):
+            return True
+        stack.extend(e.children())
+    return False
 
 
 def model_value(m, v):
